@@ -14,9 +14,17 @@ VARIABLE i
 Kept(it) == Cardinality({k \in 1..Len(it.rows) : it.rows[k].lat = 1})
 CeilDiv(a, b) == (a + b - 1) \div b
 
-Clauses == {"AllOrNothingPerRequest", "OnlyDownsamplingReduces", "ThroughputFromAllSamples"}
+(* items of kind "volume" (high-volume leg): [id, kind, added, qsize, shipped]: `added` samples were put into the      *)
+(* sampler of a worker whose queue holds `qsize` (reporting/sample.queue.size), `shipped` of them left the worker in   *)
+(* UpdateSamples messages by the time it reported its join point                                                       *)
+Min(a, b) == IF a < b THEN a ELSE b
+Clauses == {"AllOrNothingPerRequest", "OnlyDownsamplingReduces", "ThroughputFromAllSamples", "OnlyFullQueueDropsAtVolume"}
 Holds(c, it) ==
-    CASE c = "AllOrNothingPerRequest" -> \A k \in 1..Len(it.rows) : LET r == it.rows[k] IN r.lat \in {0, 1} /\ r.svc = r.lat /\ r.proc = r.lat
+    IF "kind" \in DOMAIN it /\ it.kind = "volume"
+    THEN (c = "OnlyFullQueueDropsAtVolume") => it.shipped = Min(it.added, it.qsize)
+    ELSE
+    CASE c = "OnlyFullQueueDropsAtVolume" -> TRUE
+      [] c = "AllOrNothingPerRequest" -> \A k \in 1..Len(it.rows) : LET r == it.rows[k] IN r.lat \in {0, 1} /\ r.svc = r.lat /\ r.proc = r.lat
       [] c = "OnlyDownsamplingReduces" -> Len(it.rows) = it.n /\ Kept(it) <= it.n /\ Kept(it) >= CeilDiv(it.n, it.f) /\ (it.f = 1 => Kept(it) = it.n)
       [] c = "ThroughputFromAllSamples" -> it.thrEqual
 
